@@ -194,13 +194,16 @@ impl UserPrmDataType {
                 s[..4].copy_from_slice(&i32::try_from(value)?.to_be_bytes());
             }
             UserPrmDataType::Bit(b) => {
-                if value != 0 && value != 1 {
+                if b > 7 || (value != 0 && value != 1) {
                     return Err(PrmValueRangeError(()));
                 }
                 assert!(value == 0 || value == 1);
                 s[0] = (s[0] & !(1 << b)) | (u8::try_from(value)? << b);
             }
             UserPrmDataType::BitArea(first, last) => {
+                if first > last || last > 7 {
+                    return Err(PrmValueRangeError(()));
+                }
                 let bit_size = last - first + 1;
                 if value < 0 || value >= 2i64.pow(u32::from(bit_size)) {
                     return Err(PrmValueRangeError(()));
